@@ -2256,9 +2256,17 @@ class ExpressionEvaluator(Parser):
         elif op == "*":
             return lhs * rhs
         elif op == "/":
-            return lhs // rhs  # force integer division
+            quotient = lhs // rhs  # force integer division
+            # C truncates toward zero; floor division rounds down.
+            if rhs != 0 and quotient < 0 and quotient * rhs != lhs:
+                quotient += 1
+            return quotient
         elif op == "%":
-            return lhs % rhs
+            remainder = lhs % rhs
+            # The remainder has the sign of the dividend in C.
+            if rhs != 0 and remainder != 0 and (remainder < 0) != (lhs < 0):
+                remainder -= rhs
+            return remainder
         else:
             raise ValueError("Not a binary operator.")
 
